@@ -45,6 +45,9 @@ pub struct WorkerArgs {
     pub replay: Option<ReplayFile>,
     /// describe mode: which run
     pub describe: Option<(u64, u32, u32)>,
+    /// "many" mode (program shrinking): the run spec to try against each program of this binary
+    #[serde(default)]
+    pub many: Option<Vec<(usize, RunSpec)>>,
 }
 
 /// A violation with everything needed to reproduce it, explicitly (DESIGN.md §7).
@@ -928,6 +931,7 @@ pub fn main(progs: &[ProgEntry]) {
         .collect();
     match args.mode.as_str() {
         "replay" => replay_main(&args, &mut ctxs),
+        "many" => many_main(&args, &mut ctxs),
         _ => run_main(&args, &mut ctxs),
     }
 }
@@ -960,6 +964,35 @@ fn replay_main(args: &WorkerArgs, ctxs: &mut [ProgCtx]) {
         None => serde_json::json!({"t": "replay", "reproduced": false, "labels": [], "other": ev.other}),
     };
     emit(&res);
+}
+
+/// Program shrinking: which of the candidate programs still show the violation class, and with
+/// which (re-minimised) run.
+fn many_main(args: &WorkerArgs, ctxs: &mut [ProgCtx]) {
+    let rf = args.replay.as_ref().expect("replay template");
+    let mode: &'static str = if rf.mode.starts_with("c14") {
+        "c14"
+    } else if rf.mode == "c15" {
+        "c15"
+    } else {
+        "single"
+    };
+    let mut results = vec![];
+    for (idx, spec) in args.many.as_ref().expect("candidates") {
+        let pc = match ctxs.iter_mut().find(|c| c.index == *idx) {
+            Some(pc) => pc,
+            None => continue,
+        };
+        let unit = Unit { spec: spec.clone(), mode };
+        if let Some((_, _, obs)) = reproduces(pc, &rf.property, &unit, &rf.class) {
+            let (munit, tries) = minimise(pc, &rf.property, &unit, &rf.class, &obs);
+            if let Some((d2, m2, o2)) = reproduces(pc, &rf.property, &munit, &rf.class) {
+                let out = make_replay(args, pc, &rf.property, &munit, &d2, &m2, &o2, rf.base_run, rf.variant, true, rf.steps_before_minimisation + tries);
+                results.push(serde_json::json!({"index": idx, "replay": out}));
+            }
+        }
+    }
+    emit(&serde_json::json!({"t": "many", "results": results}));
 }
 
 fn run_main(args: &WorkerArgs, ctxs: &mut [ProgCtx]) {
